@@ -413,13 +413,13 @@ func (e *Engine) makeReplay(t *testing.T, seed uint64, rec []uint32, f simrt.Fai
 	budget := time.Duration(envInt("VERIF_SHRINK_S", 40)) * time.Second
 	min, runs := e.shrink(t, rec, f.Oracle, budget)
 	a, _ := e.runOnce(t, simrt.ReplayTape(min), true)
-	b, _ := e.runOnce(t, simrt.ReplayTape(min), false)
+	b, _ := e.runOnce(t, simrt.ReplayTape(min), true)
 	fa, ok := hasOracle(a, f.Oracle)
 	if !ok {
 		// shrinking went wrong (budget) -> fall back to the original tape
 		min = rec
 		a, _ = e.runOnce(t, simrt.ReplayTape(min), true)
-		b, _ = e.runOnce(t, simrt.ReplayTape(min), false)
+		b, _ = e.runOnce(t, simrt.ReplayTape(min), true)
 		fa, ok = hasOracle(a, f.Oracle)
 	}
 	if !ok || a.LogHash() != b.LogHash() {
